@@ -987,7 +987,7 @@ func c04GenDirs(r *Rand) []c04Dir {
 
 var c04TargetPool = []string{"http://h%d.test", "http://h%d.test/", "http://h%d.test/base", "http://h%d.test/base/", "http://h%d.test:8080/b%%2Fc",
 	"http://h%d.test/base?tq=1", "http://user:pw@h%d.test/x", "http://h%d.test?k=v", "https://h%d.test/s/"}
-var c04ReqTargets = []string{"/", "/x", "/api", "/api/x", "/apix", "/api/x%2Fy", "/a%20b", "/x/", "//double", "/api//x", "/a/b/c", "/API/x", "/x%2Fy/z", "/api/"}
+var c04ReqTargets = []string{"/", "/x", "/api", "/api/x", "/apix", "/api/x%2Fy", "/a%20b", "/x/", "//double", "/api//x", "/a/b/c", "/API/x", "/x%2Fy/z", "/api/", "/x/api/y", "/b/a/c", "/api/api/x", "/v%2F1/api/x"}
 var c04Queries = []string{"", "", "a=b", "a=b&c=d", "q=%20x", "", "a=b?c"}
 
 // c04GenProxy draws cases until at most one known-deviation trigger is present, so that every
